@@ -260,6 +260,7 @@ func c14Program(cs *caseSet, nVal int) {
 				op := "weq " + pair[0].Text() + " " + pair[1].Text()
 				cs.add(opCase{Kind: "C14 ValuesAreEqual zero-sign", Impl: op, Model: op, Want: b01s(logicalEq(pair[0], pair[1])), nontrivial: true,
 					Why: "wire.ValuesAreEqual must treat +0 and -0 as the same double wherever it occurs"})
+				addSpec(cs, pair[0], pair[1])
 			}
 		}
 	}
@@ -289,6 +290,7 @@ func c14Program(cs *caseSet, nVal int) {
 			op := "weq " + pair[0].Text() + " " + pair[1].Text()
 			cs.add(opCase{Kind: "C14 ValuesAreEqual repeated field ids", Impl: op, Model: op, Want: b01s(logicalEq(pair[0], pair[1])), nontrivial: true,
 				Why: "wire.ValuesAreEqual on structs that repeat a field identifier disagrees with the comparison of the fields they denote (last entry wins), or depends on the order of its arguments"})
+			addSpec(cs, pair[0], pair[1])
 		}
 	}
 	// values as the decoder hands them out, with a container that fails when it is read (the byte
@@ -343,7 +345,35 @@ func c14Program(cs *caseSet, nVal int) {
 		op := "weq " + a.Text() + " " + bb.Text()
 		cs.add(opCase{Kind: "C14 ValuesAreEqual arbitrary", Impl: op, Model: op, Want: b01s(logicalEq(a, bb)), nontrivial: true,
 			Why: "wire.ValuesAreEqual disagrees with the independent structural comparison"})
+		addSpec(cs, a, bb)
 	}
+}
+
+// addSpec compares wire.ValuesAreEqual with the Lean statement of "the same logical value" (specEq,
+// theorem wire_equal_iff_same_logical_value) — a second independent comparison next to logicalEq.
+func addSpec(cs *caseSet, a, b *wv.V) {
+	if hasNaN(a) || hasNaN(b) { // a mutation may turn an infinity into a NaN: outside specEq's domain
+		return
+	}
+	cs.add(opCase{Kind: "C14 ValuesAreEqual vs specEq (Lean)", Impl: "weq " + a.Text() + " " + b.Text(), Model: "weqspec " + a.Text() + " " + b.Text(), nontrivial: true,
+		Why: "wire.ValuesAreEqual disagrees with the model's independent statement of the same logical value"})
+}
+
+func hasNaN(v *wv.V) bool {
+	if v.T == wv.TDouble && v.U&0x7ff0000000000000 == 0x7ff0000000000000 && v.U&0xfffffffffffff != 0 {
+		return true
+	}
+	for _, f := range v.Fields {
+		if hasNaN(f.V) {
+			return true
+		}
+	}
+	for _, it := range v.Items {
+		if hasNaN(it) {
+			return true
+		}
+	}
+	return false
 }
 
 // noNaNDup rejects values with NaN, duplicate set items / map keys, or empty
